@@ -50,6 +50,8 @@ def check_launch(run, case, workdir, mode, idopt, attempt, subprocess_=False):
         argv += ["--run-space-idempotency-key", "key-A"]
     if attempt != 1:
         argv += ["--run-space-attempt", str(attempt)]
+    for k, v in (case.get("cli_context") or {}).items():
+        argv += ["--context", f"{k}={json.dumps(v)}"]
     res = cli.run_launch(case, workdir, trace_mode=mode, detail="all", extra_argv=argv, subprocess_=subprocess_)
     run.count("launches")
     run.count("launches_subprocess" if subprocess_ else "launches_inprocess")
@@ -103,7 +105,7 @@ def check_launch(run, case, workdir, mode, idopt, attempt, subprocess_=False):
             viol("pipeline_start_fk_wrong", f"run {i}: launch id/attempt {ps.get('run_space_launch_id')}/{ps.get('run_space_attempt')}")
         if ps.get("run_space_index") != i:
             viol("run_index_wrong", f"run {i} carries run_space_index {ps.get('run_space_index')} (0-based index expected)")
-        if i < len(plan) and not account.close(ps.get("run_space_context"), plan[i]):
+        if i < len(plan) and not account.close(ps.get("run_space_context"), dict(case.get("cli_context") or {}, **plan[i])):
             viol("plan_order_or_context_wrong", f"run {i} context {ps.get('run_space_context')} vs plan[{i}] {plan[i]}")
     return res, records, launch_id, starts[0].get("run_space_spec_id") if starts else None, (starts[0].get("run_space_inputs_id") if starts else None)
 
@@ -127,7 +129,7 @@ def compare_with_standalone(run, case, launch_records, launch_dir, scratch, mode
     runs = split_runs(launch_records)
     expected_files: dict = {}
     for i, recs in enumerate(runs):
-        ctx = case["plan"][i]
+        ctx = dict(case.get("cli_context") or {}, **case["plan"][i])
         wd = tempfile.mkdtemp(prefix="standalone-", dir=scratch)
         tdir = os.path.join(wd, "trace_out")
         os.makedirs(tdir)
@@ -325,6 +327,8 @@ def run(run):
             fail_at = [None] + list(range(n_runs))
             fa = fail_at[li % len(fail_at)] if run.tier == "quick" else rng.choice(fail_at)
             case = cli.launch_case(g, fail_at=fa, n_runs=n_runs)
+            if (li + run.shard[0]) % 2 == 0:
+                case["cli_context"] = {"cli_k": 1.5}      # a key supplied with --context (shared by every run of the launch)
             mode = ("file", "dir")[li % 2]
             idopt = idopts[li % 3]
             attempt = 1 + ((li // 3 + run.shard[0]) % 3)   # decorrelated from the launch-id option
